@@ -55,6 +55,9 @@ type Config struct {
 	CapsTLS      []string `json:"capsTLS,omitempty"` // after STARTTLS; nil: Caps without STARTTLS
 	UseCapsTLS   bool     `json:"useCapsTLS,omitempty"`
 	NoEHLO       bool     `json:"noEHLO,omitempty"` // EHLO is answered 502
+	// MultiLine: default (unscripted) positive replies are sent as legal two-line replies
+	// ("250-...<CRLF>250 ...").
+	MultiLine bool `json:"multiLine,omitempty"`
 	ImplicitTLS  bool     `json:"implicitTLS,omitempty"`
 	TLS          TLSCfg   `json:"tls,omitempty"`
 	Auth         AuthCfg  `json:"auth,omitempty"`
@@ -375,6 +378,9 @@ func (s *Session) reply(cmdSeq int, verb string, nth int, act Action, defCode in
 		}
 	} else if act.Text != "" {
 		text = act.Text
+	}
+	if act.Code == 0 && act.Text == "" && s.srv.Cfg.MultiLine && code/100 == 2 && verb != "EHLO" && verb != "GREET" && verb != "AUTH" && !strings.Contains(text, "\n") {
+		text = text + "\n" + "and a second line of the same reply"
 	}
 	if act.Code == 0 && enh == "" && s.HasExt("ENHANCEDSTATUSCODES") && code >= 200 && verb != "GREET" && verb != "EHLO" && verb != "HELO" && code != 334 && code != 354 {
 		enh = enhFor(code, verb)
